@@ -226,7 +226,8 @@ static void dg_file(dg_t *d, const char *path)
 
 /* ------------------------------------------------------------ script state */
 
-#define NF 2			/* calibration frequencies */
+#define NF 2			/* calibration frequencies (default) */
+#define MAXF 4			/* most frequencies any script uses */
 #define MAXH 12			/* parameter handles a script keeps */
 #define MAXFILES 8
 #define MAXSTEPS 400
@@ -723,14 +724,16 @@ static int step_done(const char *name, int faulted, int ok, int bad, int e)
 typedef struct sim {
     ets_type_t type;
     int rows, cols;
-    etsim_t e[NF];
+    int nf;			/* frequencies measured (NF by default) */
+    etsim_t e0, e1;
+    etsim_t e[MAXF];
     vt_rng_t rng;
     double noise;
 } sim_t;
 
 #define MAXC 9			/* cells of a measurement matrix (3x3) */
 typedef struct mbuf {
-    double complex mv[MAXC][NF], av[MAXC][NF];
+    double complex mv[MAXC][MAXF], av[MAXC][MAXF];
     double complex *m[MAXC], *a[MAXC];
     int a_rows, a_cols;
 } mbuf_t;
@@ -738,23 +741,32 @@ typedef struct mbuf {
 static void sim_init(sim_t *s, ets_type_t type, int rows, int cols,
 	uint64_t seed, double noise)
 {
-    etsim_t e0, e1;
-
     memset(s, 0, sizeof(*s));
     s->type = type;
     s->rows = rows;
     s->cols = cols;
     s->noise = noise;
     vt_seed(&s->rng, seed);
-    ets_random(&e0, type, rows, cols, &s->rng, 0.3);
-    ets_random(&e1, type, rows, cols, &s->rng, 0.3);
+    ets_random(&s->e0, type, rows, cols, &s->rng, 0.3);
+    ets_random(&s->e1, type, rows, cols, &s->rng, 0.3);
+    s->nf = NF;
     for (int k = 0; k < NF; ++k)
-	ets_at_frequency(&e0, &e1, 0.3 * k / (NF - 1), &s->e[k]);
+	ets_at_frequency(&s->e0, &s->e1, 0.3 * k / (NF - 1), &s->e[k]);
+}
+
+/* the same instrument measured on another number of frequency points */
+static void sim_set_nf(sim_t *s, int nf)
+{
+    if (nf < 2 || nf > MAXF)
+	machinery("sim_set_nf", NULL);
+    s->nf = nf;
+    for (int k = 0; k < nf; ++k)
+	ets_at_frequency(&s->e0, &s->e1, 0.3 * k / (nf - 1), &s->e[k]);
 }
 
 /* readings of a device with the full ports x ports S matrix sfull[k]
  * (row-major, stride ports) per frequency */
-static void sim_measure(sim_t *s, double complex sfull[NF][MAXC], int ab,
+static void sim_measure(sim_t *s, double complex (*sfull)[MAXC], int ab,
 	mbuf_t *mb)
 {
     int R = s->rows, C = s->cols;
@@ -765,7 +777,7 @@ static void sim_measure(sim_t *s, double complex sfull[NF][MAXC], int ab,
     }
     mb->a_rows = ets_column_systems(s->type) ? 1 : C;
     mb->a_cols = C;
-    for (int k = 0; k < NF; ++k) {
+    for (int k = 0; k < s->nf; ++k) {
 	double complex m[MAXC], a[MAXC], b[MAXC];
 
 	if (ets_measure(&s->e[k], sfull[k], m) != 0)
@@ -791,9 +803,9 @@ static void sim_measure(sim_t *s, double complex sfull[NF][MAXC], int ab,
 static void sim_measure_const(sim_t *s, double complex s11, double complex s12,
 	double complex s21, double complex s22, int ab, mbuf_t *mb)
 {
-    double complex sf[NF][MAXC];
+    double complex sf[MAXF][MAXC];
 
-    for (int k = 0; k < NF; ++k) {
+    for (int k = 0; k < MAXF; ++k) {
 	sf[k][0] = s11;
 	sf[k][1] = s12;
 	sf[k][2] = s21;
